@@ -13,7 +13,12 @@ Inductive case :=
 | KWhere (text : bytes) (times : list (bytes * option Z)) (events : list ev3) (obs : wobs)
 | KLex (text : bytes) (raw mapped : option (list (tokty * bytes)))
 | KMatch (pat name : bytes) (res : option bool)
-| KQuery (text : bytes) (times : list (bytes * option Z)) (stored : list ev3) (returned : option (list ev3)).
+| KQuery (text : bytes) (times : list (bytes * option Z)) (stored : list ev3) (returned : option (list ev3))
+(* SELECT FROM {p} RANGE [lo:hi] WHERE e: the filter iterator on the explicit range (newFIterator with a time range) *)
+| KQueryRange (text : bytes) (times : list (bytes * option Z)) (stored : list ev3) (lo hi : Z) (returned : option (list ev3))
+(* SELECT FROM {p} WHERE e POSITION tail OFFSET -n (n <= number of matching events): the cursor walks the filter
+   iterator backward over n matching events and reads forward from there: the last n events of the filtered result *)
+| KQueryTail (text : bytes) (times : list (bytes * option Z)) (stored : list ev3) (n : nat) (returned : option (list ev3)).
 
 Definition wres_eqb (a b : wres) : bool :=
   match a, b with WTrue, WTrue | WFalse, WFalse | WPanic, WPanic => true | _, _ => false end.
@@ -64,6 +69,22 @@ Definition run_query (text : bytes) (times : list (bytes * option Z)) (stored : 
       end
   end.
 
+Definition run_query_range (text : bytes) (times : list (bytes * option Z)) (stored : list ev3) (lo hi : Z) : option (list event) :=
+  match expr_of_text text with
+  | None => None
+  | Some e =>
+      match mk_build times e with
+      | Some (Some f) =>
+          match fit_drain (S (List.length stored)) f lo hi (map to_event stored) with
+          | Ok l => Some l
+          | _ => None
+          end
+      | _ => None
+      end
+  end.
+Definition lastn {A} (n : nat) (l : list A) : list A := skipn (List.length l - n) l.
+Definition proj3 (o : option (list event)) : option (list ev3) := option_map (map (fun e => (ev_ts e, ev_msg e, ev_fields e))) o.
+
 Definition toks_proj (o : option (list token)) : option (list (tokty * bytes)) :=
   option_map (map (fun t => (t_ty t, t_val t))) o.
 
@@ -76,6 +97,10 @@ Definition check (c : case) : bool :=
   | KMatch pat name res => option_eqb Bool.eqb (path_match pat name) res
   | KQuery text times stored returned =>
       option_eqb (list_eqb ev3_eqb) (option_map (map (fun e => (ev_ts e, ev_msg e, ev_fields e))) (run_query text times stored)) returned
+  | KQueryRange text times stored lo hi returned =>
+      option_eqb (list_eqb ev3_eqb) (proj3 (run_query_range text times stored lo hi)) returned
+  | KQueryTail text times stored n returned =>
+      option_eqb (list_eqb ev3_eqb) (proj3 (option_map (lastn n) (run_query text times stored))) returned
   end.
 
 Definition mismatches (l : list case) : list nat := mismatches_of check l.
